@@ -402,6 +402,11 @@ func cmdCheck(args []string) {
 		}
 		os.Exit(1)
 	}
+	if os.Getenv("GOVC_KEEP_VC") == "" {
+		// every query was discharged: the SMT files (gigabytes for the lock rule) are not needed; they are kept when a
+		// violation is reported, because the replay records point to them
+		os.RemoveAll(outDir)
+	}
 }
 
 func notesOf(r *FuncResult) map[string]bool {
